@@ -73,6 +73,11 @@ func c08Data() map[string]interface{} {
 		"cf":   func(ctx context.Context, x float64) (float64, error) { return x * 2, nil },
 		"vf":   func(first int, rest ...int) (int, error) { return first + len(rest), nil },
 		"ef":   func() (int, error) { return 0, fmt.Errorf("deliberate") },
+		// a map whose entries all fail to convert, each with a different message
+		"fm":   func(m map[string]int) (int, error) { return len(m), nil },
+		"fmi":  func(m map[string]interface{}) (int, error) { return len(m), nil },
+		"bad3": map[string]interface{}{"k1": "x", "k2": true, "k3": []int{1}, "k4": map[string]int{}, "k5": "y"},
+		"ok3":  map[string]interface{}{"k1": 1.0, "k2": 2.0, "k3": 3.0},
 	}
 }
 
@@ -97,6 +102,7 @@ var c08Pool = func() []poolEntry {
 		"date(1e-70, 1, 1)", "left(s, 1e-70) + toString(10/3)", "[1e-70 % 3, 7 % 1e9000, 1e9000 % 7]",
 		"(n ?? n)!.c", "(n ? a : n)!.c", "(z && n)!.x", "[n][0]", "f(1, 'x')!.y", "(a + b)!.z", "(typeof n)!.k + 1",
 		"foo()", "left(s,-1)", "n!.y", "regexp(s,'(')", "ef()", "x = 1", "[a].b",
+		"fm(bad3)", "fm(ok3)", "fmi(bad3)", "toString(bad3) + toString(ok3)", "join([bad3, ok3], ';')",
 	}
 	var pool []poolEntry
 	for _, s := range srcs {
@@ -472,6 +478,15 @@ func runC08(w *eng.W) {
 			emit("pairs", [][2]int{a, b})
 		}
 		emit("repeat", [][2]int{a, a, a})
+		// the same operation two dozen times: an answer that depends on chance (map iteration order,
+		// pooled objects, addresses) shows up reproducibly
+		if a[1] != 0 {
+			var h [][2]int
+			for i := 0; i < 24; i++ {
+				h = append(h, a)
+			}
+			emit("determinism", h)
+		}
 	}
 	// triples / quadruples over sub-pools chosen to mix node kinds, builtins and failures
 	pick := func(n int) [][2]int {
